@@ -45,7 +45,7 @@ At(sc, k) == IF k <= Len(sc) THEN sc[k] ELSE sc[Len(sc)]
 
 (* ----- what each method waits for ------------------------------------------ *)
 Methods == {"hook", "wait", "waitjobs", "delete"}
-Strategies == {"watcher", "hookonly"}
+Strategies == {"watcher", "hookonly", "legacy"}       \* legacy: pkg/kube/wait.go (polling ReadyChecker, REST watch for hooks)
 
 \* internal/statusreaders/job_status_reader.go:jobConditions - Current only with Complete=True
 JobDone(s) == s = "complete"
@@ -57,20 +57,24 @@ PodReady(s) == s \in {"ready", "succeeded"}
 PodReadyCode(s) == s \in {"ready", "succeeded", "failed"}
 
 \* code = FALSE: the property's reading; code = TRUE: with the known deviation L27
-DesiredX(code, method, kind, s) ==
-  LET podReady == IF code THEN PodReadyCode(s) ELSE PodReady(s) IN
+\* The legacy strategy (pkg/kube/ready.go) takes a pod as ready only with the Ready condition (a pod that ran to
+\* completion keeps the wait going until the timeout), never looks at kinds it has no rule for (they count as ready
+\* even when they are gone), and gives up at once on a failed Job.
+DesiredX(code, method, strategy, kind, s) ==
+  LET podReady == IF strategy = "legacy" THEN s = "ready" ELSE IF code THEN PodReadyCode(s) ELSE PodReady(s) IN
   CASE method = "delete"   -> s = "gone"
+    [] strategy = "legacy" /\ method # "hook" /\ kind \notin {"Job", "Pod"} -> TRUE
     [] s = "gone"          -> FALSE                     \* a deleted object is never ready
     [] method = "hook"     -> (CASE kind = "Job" -> JobDone(s) [] kind = "Pod" -> PodDone(s) [] OTHER -> TRUE)
     [] method = "waitjobs" -> (CASE kind = "Job" -> JobDone(s) [] kind = "Pod" -> podReady [] OTHER -> TRUE)
     [] OTHER               -> (CASE kind = "Pod" -> podReady [] OTHER -> TRUE)        \* wait: Jobs are not waited for
                                                                                       \* (cases with Jobs under plain wait are not generated)
-Desired(method, kind, s) == DesiredX(FALSE, method, kind, s)
+Desired(method, strategy, kind, s) == DesiredX(FALSE, method, strategy, kind, s)
 
 \* hookOnlyWaiter: only WatchUntilReady waits
-Waits(method, strategy) == strategy = "watcher" \/ method = "hook"
+Waits(method, strategy) == strategy \in {"watcher", "legacy"} \/ method = "hook"
 
-AllDesiredAtX(code, c, k) == \A i \in DOMAIN c.objs : DesiredX(code, c.method, c.objs[i].kind, At(c.objs[i].script, k))
+AllDesiredAtX(code, c, k) == \A i \in DOMAIN c.objs : DesiredX(code, c.method, c.strategy, c.objs[i].kind, At(c.objs[i].script, k))
 AllDesiredAt(c, k) == AllDesiredAtX(FALSE, c, k)
 Ticks(c) == LET L == {Len(c.objs[i].script) : i \in DOMAIN c.objs} IN CHOOSE m \in L : \A x \in L : x <= m
 
